@@ -75,7 +75,7 @@ Definition prox_point_program : list mop :=
   [MFresh; MProx 0 [(0%nat, 1%Q)] (1 # 2)%Q; MProx 0 [(0%nat, 1%Q); (1%nat, (-1 # 2)%Q)] 1%Q].
 
 Example proximal_point_example (vs : (nat -> R1) * (nat -> R)) :
-  mwf prox_point_program minit = true /\ prox_ok sq_world prox_point_program = true /\
+  mwf prox_point_program minit = true /\ steps_ok sq_world prox_point_program = true /\
   Forall op_nodup prox_point_program /\
   List.length (m_samples (mrun prox_point_program minit)) = 2%nat /\
   List.length (g_cons (run_plan plan_ConvexFunction (fstate_of (fun _ => 0%Q) (mrun prox_point_program minit) 0))) = 2%nat /\
@@ -86,7 +86,7 @@ Example proximal_point_example (vs : (nat -> R1) * (nat -> R)) :
     (run_plan plan_ConvexFunction (fstate_of (fun _ => 0%Q) (mrun prox_point_program minit) 0)).
 Proof.
   assert (Hwf : mwf prox_point_program minit = true) by (vm_compute; reflexivity).
-  assert (Hpx : prox_ok sq_world prox_point_program = true) by reflexivity.
+  assert (Hpx : steps_ok sq_world prox_point_program = true) by reflexivity.
   assert (Hnd : Forall op_nodup prox_point_program).
   { repeat constructor; cbn; try tauto; intros [H|[]]; discriminate. }
   split; [exact Hwf|]. split; [exact Hpx|]. split; [exact Hnd|].
@@ -95,4 +95,188 @@ Proof.
     cbn. unfold upd, sq_res. cbn. unfold Q2R. cbn. field.
   - exact (run_satisfies_convex sq_F sq_sel sq_subgrad (0 : R1) sq_min sq_ext true sq_res
              (is_prox_spec sq_F sq_res sq_convex sq_is_prox) prox_point_program vs Hwf Hnd Hpx).
+Qed.
+
+(** * Linear minimisation oracles (Frank-Wolfe-type methods)
+
+    Spec/World.v only SPECIFIES the linear minimisation oracle ([lmo_genuine]).  For the indicator of a set this is
+    C08's theorem [linopt_iff_normal] (Props/C08.v [C08_linear_optimization_step_real]): x minimises <d, .> over
+    the set iff -d is in the normal cone of the set at x. *)
+Theorem is_linopt_spec {E : ips} (F : @fn E) (lm : E -> E) :
+  (forall z, dom F z -> val F z = 0) ->
+  (forall d, StepsSpec.is_linopt F d (lm d)) ->
+  lmo_spec (genuine_sub F) (val F) true lm.
+Proof.
+  intros Hind Hl _ d. split; [|reflexivity].
+  exact (proj1 (C08Real.linopt_iff_normal F d (lm d) Hind) (Hl d)).
+Qed.
+
+Lemma no_prox_spec {E : ips} (G : E * E * R -> Prop) (valf : E -> R) (res : R -> E -> E) : prox_spec G valf false res.
+Proof. intros H. discriminate H. Qed.
+
+(** ** Example: one Frank-Wolfe step on the indicator of [-1, 1] (real line) *)
+Definition box_F : @fn R1 := @mkFn R1 (fun x : R => -1 <= x <= 1) (fun _ => 0).
+Definition box_lm : R1 -> R1 := fun d : R => if Rle_dec 0 d then -1 else 1.
+
+Lemma box_sel (x : R1) : dom box_F x -> subgrad box_F x ((fun _ => 0 : R1) x).
+Proof. intros Hd. split; [exact Hd|]. intros y _. cbn. lra. Qed.
+Lemma box_min : subgrad box_F (0 : R1) vzero.
+Proof. split; [cbn; lra|]. intros y _. cbn. lra. Qed.
+Lemma box_ext : fn_respects_veq box_F.
+Proof.
+  intros x x' Hv. pose proof (Hv (1 : R1)) as H. cbn in H. change R in x, x'. assert (x = x') by lra. subst.
+  split; [auto|reflexivity].
+Qed.
+Lemma box_is_linopt (d : R1) : StepsSpec.is_linopt box_F d (box_lm d).
+Proof.
+  unfold StepsSpec.is_linopt, box_lm. change R in d. destruct (Rle_dec 0 d) as [Hd|Hd]; cbn; (split; [lra|]);
+    intros y Hy; change R in y; nra.
+Qed.
+Lemma box_member : indicator_member (Some 2) box_F.
+Proof.
+  split; [intros x _; reflexivity|]. intros x y Hx Hy. cbn in *. change R in x, y. unfold nrm2, vsub, vneg. cbn. nra.
+Qed.
+
+Definition box_world : @world R1 :=
+  pfn_world box_F (fun _ => 0 : R1) box_sel (0 : R1) box_min box_ext
+            false (fun _ x => x) (no_prox_spec _ _ _)
+            true box_lm (is_linopt_spec box_F box_lm (fun _ _ => eq_refl) box_is_linopt).
+
+(** x0 = Point(); d = Point(); s, gs, fs = linear_optimization_step(d, ind); x1 = (x0 + s)/2; ind.oracle(x1) *)
+Definition frank_wolfe_program : list mop :=
+  [MFresh; MFresh; MLinOpt 0 [(1%nat, 1%Q)]; MEval 0 [(0%nat, (1 # 2)%Q); (2%nat, (1 # 2)%Q)]].
+
+Example frank_wolfe_example (vs : (nat -> R1) * (nat -> R)) :
+  -1 <= fst vs 0%nat <= 1 ->          (* the starting point is in the set; the direction fst vs 1 is arbitrary *)
+  mwf frank_wolfe_program minit = true /\ steps_ok box_world frank_wolfe_program = true /\
+  Forall op_nodup frank_wolfe_program /\
+  List.length (m_samples (mrun frank_wolfe_program minit)) = 2%nat /\
+  (* the leaf created by the step is valued at the minimiser of <d, .> over [-1, 1] *)
+  fst (wrun box_world frank_wolfe_program minit vs) 2%nat = box_lm (Q2R 1 * fst vs 1%nat + 0) /\
+  List.length (g_cons (run_plan plan_ConvexIndicatorFunction
+     (set_inf (inf_flag 3 (Some 2)) (fstate_of (par_at 3 2%Q) (mrun frank_wolfe_program minit) 0)))) = 6%nat /\
+  all_satisfied (fst (wrun box_world frank_wolfe_program minit vs)) (snd (wrun box_world frank_wolfe_program minit vs))
+    (run_plan plan_ConvexIndicatorFunction
+       (set_inf (inf_flag 3 (Some 2)) (fstate_of (par_at 3 2%Q) (mrun frank_wolfe_program minit) 0))).
+Proof.
+  intros Hx0.
+  assert (Hwf : mwf frank_wolfe_program minit = true) by (vm_compute; reflexivity).
+  assert (Hpx : steps_ok box_world frank_wolfe_program = true) by reflexivity.
+  assert (Hnd : Forall op_nodup frank_wolfe_program).
+  { repeat constructor; cbn; try tauto; intros [H|[]]; discriminate. }
+  split; [exact Hwf|]. split; [exact Hpx|]. split; [exact Hnd|].
+  split; [vm_compute; reflexivity|]. split; [reflexivity|]. split; [vm_compute; reflexivity|].
+  apply (run_satisfies_convex_indicator box_F (fun _ => 0 : R1) box_sel (0 : R1) box_min box_ext
+           false (fun _ x => x) (no_prox_spec _ _ _)
+           true box_lm (is_linopt_spec box_F box_lm (fun _ _ => eq_refl) box_is_linopt)
+           frank_wolfe_program vs Hwf Hnd Hpx (Some 2) 2%Q box_member).
+  - intros d Hd. injection Hd as <-. unfold Q2R. cbn. lra.
+  - intros sm Hsm. vm_compute in Hsm. destruct Hsm as [<-|[<-|[]]]; cbn; unfold upd, box_lm; cbn;
+      match goal with |- context [Rle_dec ?a ?b] => destruct (Rle_dec a b) end; unfold Q2R; cbn;
+      destruct Hx0 as [Ha Hb]; change (V R1) with R in *; cbn in Ha, Hb; lra.
+Qed.
+
+(** * Inexact gradient methods
+
+    [MInexact f p relative eps] models inexact_gradient_step: the oracle call at p, the fresh leaf dx0 and the
+    accuracy constraint added to f.  Example: f(x) = x^2 with the inexact oracle d = 2x + eps (absolute) /
+    d = (1 + eps) 2x (relative), both exactly at the accuracy. *)
+Definition sq_D : @dfn R1 := @mkD R1 (fun x : R => x * x) (fun x : R => 2 * x).
+Definition sq_ie : bool -> R -> R1 -> R1 := fun rel eps (x : R) => if rel then (1 + eps) * (2 * x) else 2 * x + eps.
+
+Lemma sq_ie_spec : inexact_spec (dgrad sq_D) sq_ie.
+Proof.
+  intros rel eps x. change R in x. unfold sq_ie, sq_D, nrm2, vsub, vneg. destruct rel; cbn; right; ring.
+Qed.
+Lemma sq_D_stat : veq (dgrad sq_D (0 : R1)) vzero.
+Proof. intro w. cbn. lra. Qed.
+Lemma sq_D_ext : respects_veq sq_D.
+Proof.
+  intros x x' Hv. pose proof (Hv (1 : R1)) as H. cbn in H. change R in x, x'. assert (x = x') by lra. subst.
+  split; [apply veq_refl|reflexivity].
+Qed.
+
+Lemma no_ls_spec {E : ips} (g : E -> E) (ls : E -> list E -> E) : ls_spec g false ls.
+Proof. intros H. discriminate H. Qed.
+
+Definition sq_inexact_world : @world R1 :=
+  dfn_world sq_D (0 : R1) sq_D_stat sq_D_ext false (fun _ x => x) (no_prox_spec _ _ _) sq_ie sq_ie_spec
+            false (fun x0 _ => x0) (no_ls_spec _ _).
+
+(** x0 = Point(); x1, d0, f0 = inexact_gradient_step(x0, f, gamma, 1/2, 'absolute') *)
+Definition inexact_program : list mop := [MFresh; MInexact 0 [(0%nat, 1%Q)] false (1 # 2)%Q].
+
+Example inexact_gradient_example (vs : (nat -> R1) * (nat -> R)) :
+  mwf inexact_program minit = true /\ steps_ok sq_inexact_world inexact_program = true /\
+  List.length (m_samples (mrun inexact_program minit)) = 1%nat /\
+  m_np (mrun inexact_program minit) = 3%nat /\
+  (* the direction leaf is valued by the inexact oracle at the value of x0 *)
+  fst (wrun sq_inexact_world inexact_program minit vs) 2%nat = sq_ie false (Q2R (1 # 2)) (Q2R 1 * fst vs 0%nat + 0) /\
+  (* one constraint was added to the function, and it holds at the values of the run *)
+  (exists c, m_cons (mrun inexact_program minit) = [(0%nat, c)] /\
+             holds (fst (wrun sq_inexact_world inexact_program minit vs)) (snd (wrun sq_inexact_world inexact_program minit vs)) c).
+Proof.
+  split; [vm_compute; reflexivity|]. split; [reflexivity|]. split; [vm_compute; reflexivity|].
+  split; [vm_compute; reflexivity|]. split; [reflexivity|].
+  eexists. split; [reflexivity|].
+  apply (world_constraints_hold sq_inexact_world inexact_program vs 0%nat);
+    [vm_compute; reflexivity|reflexivity|left; reflexivity].
+Qed.
+
+(** * Exact line searches
+
+    [MLineSearch f x0 dirs] models exact_linesearch_step: the fresh leaf x, the oracle call at it and the
+    orthogonality constraints added to f.  Spec/World.v only SPECIFIES the line search ([ls_orth]); for a
+    differentiable function it is C08's theorem [linesearch_orthogonality] (Props/C08.v
+    [C08_exact_linesearch_step_real]): a minimiser of F over x0 + span(ds) has its gradient orthogonal to
+    x - x0 and to every direction. *)
+Theorem is_linesearch_spec {E : ips} (F : @dfn E) (ls : E -> list E -> E) :
+  StepsSpec.gateaux F -> StepsSpec.dfn_ext F ->
+  (forall x0 ds, StepsSpec.is_linesearch F x0 ds (ls x0 ds)) ->
+  ls_spec (dgrad F) true ls.
+Proof.
+  intros Hg He Hl _ x0 ds. cbn zeta.
+  destruct (C08Real.linesearch_orthogonality F x0 ds (ls x0 ds) Hg He (Hl x0 ds)) as [Hd H0]. split.
+  - rewrite inner_sym. exact H0.
+  - intros d Hin. rewrite inner_sym. exact (Hd d Hin).
+Qed.
+
+(** Example: gradient descent with exact line search on f(x) = x^2: along any non-zero direction the exact
+    minimiser is 0 *)
+Definition sq_ls : R1 -> list R1 -> R1 := fun _ _ => (0 : R).
+Lemma sq_ls_spec : ls_spec (dgrad sq_D) true sq_ls.
+Proof. intros _ x0 ds. change R in x0. cbn. unfold sq_ls. split; [ring|]. intros d _. change R in d. ring. Qed.
+
+Definition sq_ls_world : @world R1 :=
+  dfn_world sq_D (0 : R1) sq_D_stat sq_D_ext false (fun _ x => x) (no_prox_spec _ _ _)
+            (fun _ _ (x : R) => 2 * x) (exact_inexact_bound (fun _ (x : R1) => (dgrad sq_D x, dval sq_D x)) 0%nat)
+            true sq_ls sq_ls_spec.
+
+(** x0 = Point(); g0 = f.gradient(x0); x1, g1, f1 = exact_linesearch_step(x0, f, [g0]) *)
+Definition linesearch_program : list mop :=
+  [MFresh; MEval 0 [(0%nat, 1%Q)]; MLineSearch 0 [(0%nat, 1%Q)] [[(1%nat, 1%Q)]]].
+
+Example linesearch_example (vs : (nat -> R1) * (nat -> R)) :
+  mwf linesearch_program minit = true /\ steps_ok sq_ls_world linesearch_program = true /\
+  Forall op_nodup linesearch_program /\
+  List.length (m_samples (mrun linesearch_program minit)) = 2%nat /\
+  List.length (m_cons (mrun linesearch_program minit)) = 2%nat /\
+  (forall f c, In (f, c) (m_cons (mrun linesearch_program minit)) ->
+     holds (fst (wrun sq_ls_world linesearch_program minit vs)) (snd (wrun sq_ls_world linesearch_program minit vs)) c) /\
+  forall (L mu : R) (qL qmu : Q), 0 <= mu < L -> smooth_strongly_convex_member mu L sq_D -> Q2R qL = L -> Q2R qmu = mu ->
+    all_satisfied (fst (wrun sq_ls_world linesearch_program minit vs)) (snd (wrun sq_ls_world linesearch_program minit vs))
+      (run_plan plan_SmoothStronglyConvexFunction
+         (fstate_of (fun p => match p with 0%nat => qL | 1%nat => qmu | _ => 0%Q end) (mrun linesearch_program minit) 0)).
+Proof.
+  assert (Hwf : mwf linesearch_program minit = true) by (vm_compute; reflexivity).
+  assert (Hpx : steps_ok sq_ls_world linesearch_program = true) by reflexivity.
+  assert (Hnd : Forall op_nodup linesearch_program).
+  { repeat constructor; cbn; try tauto; intros [H|[]]; discriminate. }
+  split; [exact Hwf|]. split; [exact Hpx|]. split; [exact Hnd|].
+  split; [vm_compute; reflexivity|]. split; [vm_compute; reflexivity|]. split.
+  - intros f c Hin. exact (world_constraints_hold sq_ls_world linesearch_program vs f c Hwf Hpx Hin).
+  - intros L mu qL qmu Hr HF HL Hmu.
+    exact (run_satisfies_smooth_strongly_convex mu L qmu qL sq_D (0 : R1) sq_D_stat sq_D_ext
+             false (fun _ x => x) (no_prox_spec _ _ _) _ _ true sq_ls sq_ls_spec linesearch_program vs
+             Hr HF HL Hmu Hwf Hnd Hpx).
 Qed.
